@@ -47,7 +47,7 @@ def to_via(case):
     if not m or c.get("nomodel"):
         return case
     for op in c["ops"]:
-        if op["t"] not in ("open", "send", "hangup", "m2s_direct"):
+        if op["t"] not in ("open", "send", "hangup", "m2s_direct", "link_down"):
             return case
         if any(isinstance(x, dict) and "park" in x for x in (op.get("script") or [])):
             return case
@@ -742,4 +742,147 @@ def stalled_drop_histories(r, thorough):
         g.send(k, frame("IDENTIFY", [("username", "alice")]), [])
         g.conns[k] = {"phase": 2, "user": "alice"}
         cases.append({"cfg": cfg, "ops": g.ops + srvmon.audit_ops(g), "nomodel": True})
+    return cases
+
+
+def slot_histories(r, thorough):
+    """directed, monitors only: connections that end through an error path (a stalled peer vanishing while the server
+    is blocked writing to it) as many times as max_connections allows, then new connections: they must be admitted."""
+    cases = []
+    for _ in range(24 if thorough else 5):
+        cfg = base_cfg(r, None)
+        mc = r.choice([3, 4])
+        cfg.update({"max_clients": 10, "max_subs": 10, "max_conns": mc, "max_channels": 100, "max_inflight": 10, "queue": 256})
+        g = Gen(r, cfg)
+        ch = "!c1@localhost"
+        k = g.next_k
+        g.next_k += 1
+        g.ops.append({"t": "open", "k": k})
+        g.send(k, frame("CONNECT", [("version", 1), ("heartbeat_interval", 0)]), [])
+        g.send(k, frame("IDENTIFY", [("username", "bob")]), [])
+        g.send(k, frame("JOIN", [("id", g.rid()), ("channel", ch)]), [])
+        bob = k
+        for cyc in range(mc + 1):
+            k = g.next_k
+            g.next_k += 1
+            g.ops.append({"t": "open", "k": k, "duplex": 64})
+            g.send(k, frame("CONNECT", [("version", 1), ("heartbeat_interval", 0)]), [])
+            g.send(k, frame("IDENTIFY", [("username", "u%d" % cyc)]), [])
+            g.send(k, frame("JOIN", [("id", g.rid()), ("channel", ch)]), [])
+            g.ops.append({"t": "stall", "k": k, "on": True})
+            for _ in range(4):
+                pl = bytes(r.randrange(256) for _ in range(300))
+                g.send(bob, frame("BROADCAST", [("id", g.rid()), ("channel", ch), ("length", len(pl))], pl), [])
+            g.ops.append({"t": "hangup", "k": k, "script": []})
+        for j in range(mc - 1):
+            k = g.next_k
+            g.next_k += 1
+            g.ops.append({"t": "open", "k": k})
+            g.send(k, frame("CONNECT", [("version", 1), ("heartbeat_interval", 0)]), [])
+            g.send(k, frame("IDENTIFY", [("username", "late%d" % j)]), [])
+        cases.append({"cfg": cfg, "ops": g.ops, "nomodel": True})
+    return cases
+
+
+def inflight_histories(r, thorough):
+    """directed, monitors only: requests suspended in a modulator call that never answers run into request_timeout, one
+    after the other, max_inflight_requests times; afterwards a full window of pipelined requests must be served."""
+    cases = []
+    for _ in range(16 if thorough else 4):
+        cfg = base_cfg(r, MOD_CONFIGS[3])
+        k_inf = r.choice([2, 3])
+        cfg.update({"max_clients": 10, "max_subs": 10, "max_conns": 16, "max_channels": 100, "max_inflight": k_inf, "request_timeout_ms": 500})
+        g = Gen(r, cfg)
+        ks = _login(g, ["alice", "bob"])
+        ch = "!c1@localhost"
+        for u in ("alice", "bob"):
+            g.send(ks[u], frame("JOIN", [("id", g.rid()), ("channel", ch)]), ["ok", "ok"])
+        for i in range(k_inf):
+            g.send(ks["alice"], frame("BROADCAST", [("id", g.rid()), ("channel", ch), ("length", 4)], b"slow"), [{"park": i + 1}])
+            g.ops.append({"t": "advance", "ms": 700})
+        burst = b"".join(frame("CHANNELS", [("id", g.rid())]) for _ in range(k_inf))
+        g.ops.append({"t": "send", "k": ks["alice"], "bytes": burst.hex(), "script": [], "window": k_inf})
+        cases.append({"cfg": cfg, "ops": g.ops, "nomodel": True})
+    return cases
+
+
+def stalled_resume_histories(r, thorough):
+    """directed, monitors only: a member stops reading on a tiny socket buffer while large broadcasts are queued to it,
+    other clients cycle the shared message-buffer pool with small traffic, then the member reads on: every frame it
+    finally receives must be intact (header and payload) and attributed correctly."""
+    cases = []
+    for _ in range(24 if thorough else 5):
+        cfg = base_cfg(r, None)
+        cfg.update({"max_clients": 10, "max_subs": 10, "max_conns": 16, "max_channels": 100, "max_inflight": 512, "queue": 1024, "max_payload": 1024})
+        g = Gen(r, cfg)
+        ks = {}
+        for u in ("alice", "bob", "carol", "dave"):
+            k = g.next_k
+            g.next_k += 1
+            op = {"t": "open", "k": k}
+            if u == "alice":
+                op["duplex"] = r.choice([256, 1024])
+            g.ops.append(op)
+            g.send(k, frame("CONNECT", [("version", 1), ("heartbeat_interval", 0)]), [])
+            g.send(k, frame("IDENTIFY", [("username", u)]), [])
+            g.conns[k] = {"phase": 2, "user": u}
+            ks[u] = k
+        for u, chn in (("alice", "!c1@localhost"), ("bob", "!c1@localhost"), ("carol", "!c2@localhost"), ("dave", "!c2@localhost")):
+            g.send(ks[u], frame("JOIN", [("id", g.rid()), ("channel", chn)]), [])
+        g.ops.append({"t": "stall", "k": ks["alice"], "on": True})
+        for _ in range(r.randint(4, 8)):
+            pl = bytes(r.randrange(256) for _ in range(r.choice([600, 1000])))
+            g.send(ks["bob"], frame("BROADCAST", [("id", g.rid()), ("channel", "!c1@localhost"), ("length", len(pl)), ("qos", 1)], pl), [])
+        for _ in range(2):
+            burst = b"".join(frame("BROADCAST", [("id", g.rid()), ("channel", "!c2@localhost"), ("length", 3)], b"abc") for _ in range(110))
+            g.ops.append({"t": "send", "k": ks["carol"], "bytes": burst.hex(), "script": []})
+        g.ops.append({"t": "stall", "k": ks["alice"], "on": False})
+        g.ops.append({"t": "send", "k": ks["alice"], "bytes": frame("CHANNELS", [("id", g.rid())]).hex(), "script": [], "settle_ms": 200})
+        cases.append({"cfg": cfg, "ops": g.ops, "nomodel": True, "stalled_resume": ks["alice"]})
+    return cases
+
+
+def outage_histories(r, thorough):
+    """directed, monitors only: the real S2M wire path with the modulator process going away (listener gone, live links
+    ended, re-dialling fails) — single-link and pooled client modes; afterwards every delegated decision must fail closed:
+    no payload delivered, the publisher answered with an ERROR carrying its id, nobody authenticated."""
+    cases = []
+    for _ in range(20 if thorough else 5):
+        auth = r.random() < 0.3
+        mod = dict(MOD_CONFIGS[-1] if auth else MOD_CONFIGS[3])
+        cfg = base_cfg(r, mod)
+        cfg.update({"max_clients": 10, "max_subs": 10, "max_conns": 16, "max_channels": 100, "max_inflight": 10})
+        g = Gen(r, cfg)
+        ks = {}
+        for u in ("alice", "bob"):
+            k = g.next_k
+            g.next_k += 1
+            g.ops.append({"t": "open", "k": k})
+            g.send(k, frame("CONNECT", [("version", 1), ("heartbeat_interval", 0)]), [])
+            if auth:
+                g.send(k, frame("AUTH", [("token", "tok-" + u)]), [{"auth_success": u.encode().hex()}])
+            else:
+                g.send(k, frame("IDENTIFY", [("username", u)]), [])
+            g.conns[k] = {"phase": 2, "user": u}
+            ks[u] = k
+        ch = "!c1@localhost"
+        for u in ("alice", "bob"):
+            g.send(ks[u], frame("JOIN", [("id", g.rid()), ("channel", ch)]), ["ok", "ok"])
+        g.send(ks["alice"], frame("BROADCAST", [("id", g.rid()), ("channel", ch), ("length", 5), ("qos", 1)], b"first"), ["ok"])
+        g.ops.append({"t": "link_down"})
+        for _ in range(r.randint(1, 3)):
+            who = r.choice(["alice", "bob"])
+            pl = r.choice([b"a secret thing", b"x", bytes(r.randrange(256) for _ in range(100))])
+            g.send(ks[who], frame("BROADCAST", [("id", g.rid()), ("channel", ch), ("length", len(pl)), ("qos", r.choice([None, 0, 1]))], pl), ["err"] * 6)
+        if auth:
+            k = g.next_k
+            g.next_k += 1
+            g.ops.append({"t": "open", "k": k})
+            g.send(k, frame("CONNECT", [("version", 1), ("heartbeat_interval", 0)]), [])
+            g.send(k, frame("AUTH", [("token", "tok-carol")]), ["err"])
+            g.send(k, frame("JOIN", [("id", g.rid()), ("channel", ch)]), ["err"] * 3)
+        case = to_via({"cfg": cfg, "ops": g.ops})
+        case["nomodel"] = True
+        case["cfg"]["settle_ms"] = 600
+        cases.append(case)
     return cases
